@@ -10,9 +10,10 @@
      it on the line is dropped, the comment state is not entered
    * `optimize_keeps_comments` : listing comments (`--insert_code`) are never touched or moved by the
      optimiser (from C02's loop invariant), so they can only make it remove less
-  Not proved: that a `/*` preceding any `//` opens the comment in the untruncated remainder of the
-  line (what the `fix:` for DESIGN.md row 10 restored; model line `afterBlock`, exercised by the
-  regression corpus and the correspondence); token-level invariance under blanks/tabs/splices (pest's WHITESPACE rule, trusted) and
+   * `block_comment_opens` : a `/*` that no quote and no `//` precedes opens the comment, and the scanner goes on
+     inside it with the UNTRUNCATED remainder of the line, whatever that contains (`//`, quotes, `/*`) — what the
+     `fix:` for DESIGN.md row 10 restored (`beforeLine_keeps`, `splitOnce_open`)
+  Not proved: token-level invariance under blanks/tabs/splices (pest's WHITESPACE rule, trusted) and
   that fewer peephole removals preserve behaviour (C02's co-execution); both are covered by the
   decorated-twin comparison of the check.
 -/
@@ -88,6 +89,112 @@ theorem line_comment_to_eol (lb fuel : Nat) (s2 tail acc : Str) (ins : Bool) (li
     simp only [scanLine, hs, hb, hq]
     simp
 
+/-! ### the opening side of a block comment -/
+
+/-- the text the scanner searches for `/*`: the line up to its first `//` -/
+def beforeLine (rem : Str) : Str := match splitOnce ['/', '/'] rem with | some (b, _) => b | none => rem
+
+/-- when no `//` starts before the `/*`, the searched text still contains the whole `s2 ++ "/*"` -/
+theorem beforeLine_keeps (rest : Str) : ∀ (s2 : Str),
+    (∀ j, j < s2.length → ['/', '/'].isPrefixOf ((s2 ++ ['/', '*'] ++ rest).drop j) = false) →
+    ∃ x, beforeLine (s2 ++ ['/', '*'] ++ rest) = s2 ++ ['/', '*'] ++ x := by
+  intro s2
+  induction s2 with
+  | nil =>
+    intro _
+    simp only [List.nil_append, List.cons_append, beforeLine, splitOnce]
+    have h1 : ['/', '/'].isPrefixOf ('/' :: '*' :: rest) = false := by simp [List.isPrefixOf]
+    simp only [h1, Bool.false_eq_true, if_false]
+    cases rest with
+    | nil => exact ⟨[], by simp [splitOnce]⟩
+    | cons r rs =>
+      have h2 : ['/', '/'].isPrefixOf ('*' :: r :: rs) = false := by simp [List.isPrefixOf]
+      simp only [h2, Bool.false_eq_true, if_false]
+      cases h3 : splitOnce ['/', '/'] (r :: rs) with
+      | none => exact ⟨r :: rs, by simp⟩
+      | some p => exact ⟨p.1, by simp⟩
+  | cons c cs ih =>
+    intro h
+    have h0 := h 0 (by simp)
+    have hrec : ∀ j, j < cs.length → ['/', '/'].isPrefixOf ((cs ++ ['/', '*'] ++ rest).drop j) = false := by
+      intro j hj
+      have := h (j + 1) (by simp; omega)
+      simpa using this
+    obtain ⟨x, hx⟩ := ih hrec
+    have e : (c :: cs) ++ ['/', '*'] ++ rest = c :: (cs ++ ['/', '*'] ++ rest) := by simp
+    have h0' : ['/', '/'].isPrefixOf (c :: (cs ++ ['/', '*'] ++ rest)) = false := by rw [← e]; simpa using h0
+    rw [e]
+    unfold beforeLine at hx ⊢
+    simp only [splitOnce, h0', Bool.false_eq_true, if_false]
+    cases h3 : splitOnce ['/', '/'] (cs ++ ['/', '*'] ++ rest) with
+    | none =>
+      rw [h3] at hx
+      exact ⟨rest, by simp⟩
+    | some p =>
+      rw [h3] at hx
+      simp only at hx
+      exact ⟨x, by simp [hx]⟩
+
+/-- whether `/*` starts inside `s2` does not depend on what follows the `/*` -/
+theorem splitOnce_open (rest : Str) : ∀ (s2 x : Str), FirstAt ['/', '*'] s2 rest →
+    splitOnce ['/', '*'] (s2 ++ ['/', '*'] ++ x) = some (s2, x) := by
+  intro s2
+  induction s2 with
+  | nil => intro x _; simp [splitOnce, List.isPrefixOf]
+  | cons c cs ih =>
+    intro x h
+    have h0 := h 0 (by simp)
+    have hrec : FirstAt ['/', '*'] cs rest := by
+      intro j hj
+      have := h (j + 1) (by simp; omega)
+      simpa using this
+    have e : (c :: cs) ++ ['/', '*'] ++ x = c :: (cs ++ ['/', '*'] ++ x) := by simp
+    have h0' : ['/', '*'].isPrefixOf (c :: (cs ++ ['/', '*'] ++ x)) = false := by
+      have h00 : ['/', '*'].isPrefixOf (c :: (cs ++ ['/', '*'] ++ rest)) = false := by simpa using h0
+      cases cs with
+      | nil => simpa [List.isPrefixOf] using h00
+      | cons d ds => simpa [List.isPrefixOf] using h00
+    rw [e, splitOnce]
+    simp only [h0', Bool.false_eq_true, if_false, ih x hrec]
+
+/-- a block comment opens at the first `/*` that no quote and no `//` precedes, and the scanner goes on INSIDE the
+    comment with the untruncated remainder of the line, whatever it contains (`//`, quotes, another `/*`): the
+    behaviour the repair of DESIGN.md row 10 restored -/
+theorem block_comment_opens (asm : Bool) (lb fuel : Nat) (s2 rest acc : Str) (ins : Bool) (lits : List Str)
+    (hfirst : FirstAt ['/', '*'] s2 rest) (hq : splitOnce ['"'] s2 = none)
+    (hnl : ∀ j, j < s2.length → ['/', '/'].isPrefixOf ((s2 ++ ['/', '*'] ++ rest).drop j) = false) :
+    scanLine asm lb (fuel + 1) false (s2 ++ ['/', '*'] ++ rest) acc ins lits
+      = scanLine asm lb fuel true rest (acc ++ s2) (if (acc ++ s2).isEmpty then false else ins) lits := by
+  obtain ⟨x, hx⟩ := beforeLine_keeps rest s2 hnl
+  have hs := splitOnce_open rest s2 x hfirst
+  have hne : s2 ++ ['/', '*'] ++ rest ≠ [] := by simp
+  cases hr : s2 ++ ['/', '*'] ++ rest with
+  | nil => exact absurd hr hne
+  | cons c cs =>
+    unfold beforeLine at hx
+    rw [hr] at hx
+    have hdrop : (c :: cs).drop (s2.length + 2) = rest := by
+      rw [← hr]; simp
+    cases h3 : splitOnce ['/', '/'] (c :: cs) with
+    | none =>
+      rw [h3] at hx
+      simp only at hx
+      have hxr : x = rest := by
+        have := hx.symm.trans hr.symm
+        simpa using this
+      subst hxr
+      simp only [scanLine, h3]
+      rw [hx, hs]
+      simp only [hq, Option.map_none, hdrop]
+      cases asm <;> simp
+    | some p =>
+      rw [h3] at hx
+      simp only at hx
+      simp only [scanLine, h3]
+      rw [hx, hs]
+      simp only [hq, Option.map_none, hdrop]
+      cases asm <;> simp
+
 /-- listing comments (`--insert_code`) are never touched by the optimiser -/
 theorem optimize_keeps_comments (c : CV.Code) (i : Nat) (s : String)
     (h : c[i]? = some (CV.Line.comment s)) : (CV.optimize c).1[i]? = some (CV.Line.comment s) := by
@@ -98,5 +205,10 @@ theorem optimize_keeps_comments (c : CV.Code) (i : Nat) (s : String)
 example : ∀ j, j < 16 →
     ['*', '/'].isPrefixOf ((" see http://x.y ".toList ++ ['*', '/'] ++ " char b;".toList).drop j) = false := by
   decide
+
+/-- `x = 1; /* see http://a//b */ y = 2;` — the `//` inside the comment does not cut the line -/
+example : (match scanLine false 0 9 false ['x', '=', '1', ';', '/', '*', 'h', ':', '/', '/', 'a', '/', '/', 'b', '*', '/', 'y', '=', '2', ';'] [] false [] with
+    | .ok o => o.text == ['x', '=', '1', ';', 'y', '=', '2', ';'] && !o.inComment
+    | .error _ => false) = true := by decide
 
 end CV.C11
